@@ -402,6 +402,7 @@ type fctx struct {
 	globals map[string]bool
 	deps    map[*fnInfo]bool
 	regions []region // slices obtained from the abstract writer's Malloc on the current path: committed at every return
+	pendingRange *rangeInfo
 	pendingRegion string // handle expression of the Malloc call just translated (bound to its slice variable by assign)
 	ftVar   string   // Lean name of the variable of the last fieldTarget
 	loop    *loopCtx // innermost enclosing loop (nil at function level)
@@ -417,7 +418,14 @@ type region struct {
 
 // a `for` loop becomes a recursive Lean function over fuel; its result is `LoopR ρ σ`: the enclosing function returns
 // (ret), or the loop is left normally with the values of the variables it modifies (done)
+type rangeInfo struct {
+	key, val types.Object // loop variables (either may be nil)
+	keyName  string       // Lean name of the index (a fresh name when the loop has no key variable)
+	rx, rlen string       // Lean names of the ranged slice and of its length, evaluated once before the loop
+}
+
 type loopCtx struct {
+	rng  *rangeInfo
 	name string
 	free []types.Object // variables of the enclosing function the loop reads (parameters of the loop function)
 	mods []types.Object // the ones it assigns (threaded through the recursion, returned on exit)
@@ -542,6 +550,10 @@ func (f *fctx) stmts(list []ast.Stmt, rest []ast.Stmt, depth int) []string {
 		case *ast.ForStmt:
 			tail := append(append([]ast.Stmt{}, list[i+1:]...), rest...)
 			f.forStmt(b, st, tail, depth)
+			return b.lines
+		case *ast.RangeStmt:
+			tail := append(append([]ast.Stmt{}, list[i+1:]...), rest...)
+			f.rangeStmt(b, st, tail, depth)
 			return b.lines
 		case *ast.SwitchStmt:
 			tail := append(append([]ast.Stmt{}, list[i+1:]...), rest...)
@@ -675,6 +687,9 @@ func tupleOf(xs []string, unit string) string {
 
 func (f *fctx) modTuple(l *loopCtx) string {
 	var xs []string
+	if l.rng != nil && l.rng.key == nil {
+		xs = append(xs, l.rng.keyName)
+	}
 	for _, o := range l.mods {
 		xs = append(xs, f.nameOf(o))
 	}
@@ -719,8 +734,11 @@ func (f *fctx) loopNext(b *blk) {
 		}
 		f.loop = saved
 	}
+	if l.rng != nil {
+		b.add(fmt.Sprintf("let %s := wrap .i64 (%s + 1)", l.rng.keyName, l.rng.keyName))
+	}
 	call := f.loopCall(l, "fuel")
-	if len(l.mods) == 0 {
+	if len(l.mods) == 0 && !(l.rng != nil && l.rng.key == nil) {
 		call += " ()"
 	}
 	b.add(call)
@@ -748,7 +766,13 @@ func (f *fctx) loopCall(l *loopCtx, fuel string) string {
 			args = append(args, f.nameOf(o)+"_off")
 		}
 	}
+	if l.rng != nil {
+		args = append(args, l.rng.rx, l.rng.rlen)
+	}
 	args = append(args, fuel)
+	if l.rng != nil && l.rng.key == nil {
+		args = append(args, l.rng.keyName)
+	}
 	for _, o := range l.mods {
 		args = append(args, f.nameOf(o))
 	}
@@ -847,8 +871,41 @@ func (f *fctx) assignedIn(nodes ...ast.Node) map[types.Object]bool {
 	return out
 }
 
+// rangeStmt: `for i := range s`, `for i, v := range s`, `for range s` over a byte slice: the slice and its length are
+// evaluated once, then an index loop
+func (f *fctx) rangeStmt(b *blk, st *ast.RangeStmt, tail []ast.Stmt, depth int) {
+	info := f.pk.TypesInfo
+	if leanType(info.TypeOf(st.X)) != tBytes {
+		f.fail(st, "range over %s not supported", info.TypeOf(st.X))
+	}
+	if st.Tok != token.DEFINE && (st.Key != nil || st.Value != nil) {
+		f.fail(st, "range assigning to existing variables")
+	}
+	ri := &rangeInfo{}
+	x := f.expr(b, st.X)
+	ri.rx, ri.rlen = f.fresh(), f.fresh()
+	b.add("let " + ri.rx + " := " + x)
+	b.add("let " + ri.rlen + " := len " + ri.rx)
+	if id, ok := st.Key.(*ast.Ident); ok && id.Name != "_" {
+		ri.key = info.Defs[id]
+	}
+	if id, ok := st.Value.(*ast.Ident); ok && id.Name != "_" {
+		ri.val = info.Defs[id]
+	}
+	if ri.key != nil {
+		ri.keyName = f.nameOf(ri.key)
+	} else {
+		ri.keyName = f.fresh()
+	}
+	b.add("let " + ri.keyName + " := 0")
+	f.pendingRange = ri
+	f.forStmt(b, &ast.ForStmt{For: st.For, Body: st.Body}, tail, depth)
+}
+
 func (f *fctx) forStmt(b *blk, st *ast.ForStmt, tail []ast.Stmt, depth int) {
 	info := f.pk.TypesInfo
+	rng := f.pendingRange
+	f.pendingRange = nil
 	if st.Init != nil {
 		lines := f.stmts([]ast.Stmt{st.Init, &ast.ForStmt{For: st.For, Cond: st.Cond, Post: st.Post, Body: st.Body}}, tail, depth+1)
 		b.lines = append(b.lines, lines...)
@@ -895,6 +952,13 @@ func (f *fctx) forStmt(b *blk, st *ast.ForStmt, tail []ast.Stmt, depth int) {
 	})
 	sort.Slice(free, func(i, j int) bool { return free[i].Pos() < free[j].Pos() })
 	asg := f.assignedIn(st.Post, st.Body)
+	if rng != nil && rng.key != nil {
+		if !seen[rng.key] {
+			free = append(free, rng.key)
+			sort.Slice(free, func(i, j int) bool { return free[i].Pos() < free[j].Pos() })
+		}
+		asg[rng.key] = true
+	}
 	var mods []types.Object
 	for _, o := range free {
 		if asg[o] {
@@ -902,7 +966,7 @@ func (f *fctx) forStmt(b *blk, st *ast.ForStmt, tail []ast.Stmt, depth int) {
 		}
 	}
 	f.fi.nloops++
-	l := &loopCtx{name: fmt.Sprintf("%s_loop%d", f.fi.spec.lean, f.fi.nloops), free: free, mods: mods, post: st.Post}
+	l := &loopCtx{name: fmt.Sprintf("%s_loop%d", f.fi.spec.lean, f.fi.nloops), free: free, mods: mods, post: st.Post, rng: rng}
 	// the loop function
 	var params []string
 	if f.fi.selfrec {
@@ -917,7 +981,14 @@ func (f *fctx) forStmt(b *blk, st *ast.ForStmt, tail []ast.Stmt, depth int) {
 			params = append(params, fmt.Sprintf("(%s_off : Int)", f.nameOf(o)))
 		}
 	}
+	if rng != nil {
+		params = append(params, fmt.Sprintf("(%s : Bytes) (%s : Int)", rng.rx, rng.rlen))
+	}
 	var mtys, mnames []string
+	if rng != nil && rng.key == nil {
+		mtys = append(mtys, "Int")
+		mnames = append(mnames, rng.keyName)
+	}
 	for _, o := range mods {
 		mtys = append(mtys, f.tyOf(o))
 		mnames = append(mnames, f.nameOf(o))
@@ -934,7 +1005,19 @@ func (f *fctx) forStmt(b *blk, st *ast.ForStmt, tail []ast.Stmt, depth int) {
 	f.loop, f.inSw = l, 0
 	nglob := len(f.globals)
 	body := &blk{}
-	if st.Cond != nil {
+	if rng != nil {
+		inner := &blk{}
+		if rng.val != nil {
+			t := f.fresh()
+			inner.add(fmt.Sprintf("let %s ← idx %s %s", t, rng.rx, rng.keyName))
+			inner.add(fmt.Sprintf("let %s := %s", f.nameOf(rng.val), t))
+		}
+		inner.lines = append(inner.lines, f.stmts(st.Body.List, nil, depth+1)...)
+		body.add(fmt.Sprintf("if decide (%s < %s) then do", rng.keyName, rng.rlen))
+		body.add(strings.TrimRight(indent(inner.lines, 1), "\n"))
+		body.add("else do")
+		body.add("  pure (LoopR.done " + f.modTuple(l) + ")")
+	} else if st.Cond != nil {
 		cond := f.boolExpr(body, st.Cond)
 		inner := f.stmts(st.Body.List, nil, depth+1)
 		body.add("if " + cond + " then do")
@@ -961,20 +1044,24 @@ func (f *fctx) forStmt(b *blk, st *ast.ForStmt, tail []ast.Stmt, depth int) {
 	// the call site
 	t := f.fresh()
 	call := f.loopCall(l, "fuel")
-	if len(mods) == 0 {
+	extraMod := 0
+	if rng != nil && rng.key == nil {
+		extraMod = 1
+	}
+	if len(mods)+extraMod == 0 {
 		call += " ()"
 	}
 	b.add(fmt.Sprintf("let %s ← %s", t, call))
 	b.add("match " + t + " with")
 	b.add("| LoopR.ret r => " + f.wrapRet("r"))
-	if st.Cond == nil && !hasBreak(st.Body) {
+	if st.Cond == nil && rng == nil && !hasBreak(st.Body) {
 		// `for { … }` without break: the loop is only left by return
 		b.add("| LoopR.done _ => .panic \"unreachable\"")
 		return
 	}
 	after := &blk{}
 	for k, o := range mods {
-		after.add(fmt.Sprintf("let %s := %s", f.nameOf(o), projOf("s", k, len(mods))))
+		after.add(fmt.Sprintf("let %s := %s", f.nameOf(o), projOf("s", k+extraMod, len(mods)+extraMod)))
 	}
 	after.lines = append(after.lines, f.stmts(tail, nil, depth+1)...)
 	b.add("| LoopR.done s => do")
